@@ -158,3 +158,229 @@ def ob_d(ob):
             return
         ob.discharged("d:subset %s" % req)
     ob.sample({"slots": [str(o.a.reshape(-1)[0]) if isinstance(o, SymTensor) else None for o in out[:8]]})
+
+
+def replay_adjoint(name):
+    """public API, formaldehyde/AM1: gradients of density-dependent outputs (gap, frontier orbital energies, atomic
+    populations) w.r.t. the one-centre integral `name` with scf_backward=1 vs central finite differences"""
+    from seqm.Molecule import Molecule
+    from seqm.basics import Energy
+    from seqm.seqm_functions.constants import Constants
+    from .common import quiet
+
+    const = Constants()
+    species = torch.tensor([[8, 6, 1, 1]])
+    xyz = torch.tensor([[[0.03, 0.02, 0.01], [1.22, 0.05, -0.03], [1.85, 0.95, 0.10], [1.80, -0.93, -0.08]]])
+
+    def run(value, scf_backward):
+        sp = {"method": "AM1", "scf_eps": 1e-10, "scf_converger": [1], "sp2": [False], "learned": [name] if value is not None else [], "scf_backward": scf_backward, "eig": True}
+        with quiet():
+            mol = Molecule(const, sp, xyz.clone(), species)
+            mol.verbose = False
+            out = Energy(sp)(mol, learned_parameters=({name: value} if value is not None else {}), all_terms=True)
+        gap, e, P = out[6], out[7], out[8]
+        q = P.diagonal(dim1=1, dim2=2).reshape(1, -1, 4).sum(-1)
+        return mol, torch.cat([gap.reshape(-1), e[0, 4:8].reshape(-1), q.reshape(-1)])
+
+    base = run(None, 0)[0].parameters[name].detach().clone()
+    v = base.clone().requires_grad_(True)
+    mol, y = run(v, 1)
+    leaf = mol.parameters[name]
+    worst = 0.0
+    for atom in (0, 1):
+        ad = []
+        for k in range(y.numel()):
+            g = torch.autograd.grad(y[k], leaf, retain_graph=True, allow_unused=True)[0]
+            ad.append(0.0 if g is None else g[atom].item())
+        h = 1e-4
+        vp, vm = base.clone(), base.clone()
+        vp[atom] += h
+        vm[atom] -= h
+        fd = ((run(vp, 0)[1] - run(vm, 0)[1]) / (2 * h)).detach()
+        d = max(abs(a - f.item()) for a, f in zip(ad, fd))
+        k = max(range(len(ad)), key=lambda i: abs(ad[i] - fd[i].item()))
+        print("replay d(outputs)/d %s[atom %d] scf_backward=1: max |autograd - FD| = %.3e (output %d: %.6f vs %.6f)" % (name, atom, d, k, ad[k], fd[k].item()))
+        worst = max(worst, d)
+    return worst > 1e-5
+
+
+_PUBLIC = {"gss": "g_ss", "gpp": "g_pp", "gp2": "g_p2", "hsp": "h_sp", "gsp": "g_sp"}
+
+
+@obligation(PID, "e", title="implicit SCF adjoint returns partial derivatives: with M and w carrying the autograd history that ties them to g_ss/g_pp/g_p2/h_sp, chaining the returned slots through that history gives the total derivative of the SCF map exactly once, for every differentiable parameter")
+def ob_e(ob):
+    from seqm.seqm_functions import scf_loop as SL
+
+    ob.encodes(SL.SCF.forward, SL.SCF.backward)
+    ob.bound("symbolic-tag execution with an autograd-history model: w = w(g_ss, g_pp, g_p2, h_sp), M = M(g_ss, g_pp, g_p2, h_sp) with symbolic Jacobian coefficients; partial derivatives a_x of the SCF map w.r.t. each of its 8 tensor inputs symbolic; upstream gradient symbolic; 7 realistic sets of differentiable inputs (each one-centre integral alone with M, w; g_sp alone; coordinates only; all)")
+    ob.assume("torch.autograd.grad follows every history path from the output to each requested input, including paths through other requested inputs (stub contract); detach() returns a history-free alias", "SCF iterations, Fock build, eigen-solver and adjoint fixed-point solvers are recorders; the adjoint solve returns the upstream gradient (contraction part not under test here)")
+    e = z3.Real("eps")
+    cases = [[r, "w", "M"] for r in scfbw.HIST_ROOTS] + [["gsp"], ["w", "M"], list(scfbw.NAMES)]
+    for req in cases:
+        S.reset()
+        ctx, inp = scfbw.forward("A", "AM1", SymTensor(np.array(e, dtype=object)), requires=req)
+        h = scfbw.attach_history(inp, req)
+        out, a, u = scfbw.backward_with_history(ctx)
+        G = {}
+        for k, n in enumerate(scfbw.NAMES):
+            G[n] = out[k].a.reshape(-1)[0] if isinstance(out[k], SymTensor) else z3.RealVal(0)
+            ob.require((n in req) == isinstance(out[k], SymTensor), "slot %s: differentiable=%s but returned %r" % (n, n in req, type(out[k]).__name__))
+        claims = []
+        for t in ("M", "w"):
+            if t in req:
+                claims.append((t, G[t] == u * a[t]))
+        for r in ("gss", "gpp", "gp2", "hsp", "gsp", "W"):
+            if r not in req:
+                continue
+            hw, hM = h.get(("w", r), z3.RealVal(0)), h.get(("M", r), z3.RealVal(0))
+            claims.append((r, G[r] + G["w"] * hw + G["M"] * hM == u * (a[r] + a["w"] * hw + a["M"] * hM)))
+        for r, c in claims:
+            lab = "e:%s total derivative w.r.t. %s" % ("+".join(req), r)
+            v, m = smt.prove(c, [], lab, "nra", 60)
+            if v == "sat":
+                pub = _PUBLIC.get(r)
+                ob.sample({"case": req, "root": r, "returned": str(z3.simplify(G[r])), "model": {str(d): str(m[d]) for d in m.decls()} if m is not None else None})
+                if pub and replay_adjoint(pub):
+                    ob.violation("SCF.backward differentiates w.r.t. saved inputs that still carry their autograd history: the dependence of the integrals on %s is followed inside backward and again by the caller's graph (density-dependent outputs get wrong %s gradients with scf_backward=1)" % (pub, pub), {"module": "harness.C07", "func": "replay_adjoint", "args": {"name": pub}})
+                    return
+                raise HarnessError("adjoint history counterexample did not reproduce (%s)" % lab)
+            ob.verdict(v, lab)
+    # sensitivity twin: a history path that the model would not follow must be noticed
+    x, y = z3.Reals("x y")
+    expect_refuted(ob, 2 * x * y == x * y, [], "twin: a doubled history term is not equal to the single one", "nra")
+
+
+_FORMALDEHYDE = ([[8, 6, 1, 1]], [[[0.03, 0.02, 0.01], [1.22, 0.05, -0.03], [1.85, 0.95, 0.10], [1.80, -0.93, -0.08]]])
+
+
+def replay_param_handover(method, name, mode):
+    """public API (formaldehyde): supply `name` as a differentiable tensor (leaf / non-leaf / callable of the geometry) and
+    compare the gradient that reaches the caller's tensor with a central finite difference of Etot"""
+    from seqm.Molecule import Molecule
+    from seqm.basics import Energy
+    from seqm.seqm_functions.constants import Constants
+    from .common import quiet
+
+    species, xyz0 = torch.tensor(_FORMALDEHYDE[0]), torch.tensor(_FORMALDEHYDE[1])
+
+    def energy(lp, learned=True):
+        sp = {"method": method, "scf_eps": 1e-10, "scf_converger": [1], "sp2": [False], "learned": [name] if learned else [], "scf_backward": 0}
+        with quiet():
+            mol = Molecule(Constants(), sp, xyz0.clone(), species, learned_parameters=lp)
+            mol.verbose = False
+            out = Energy(sp)(mol, learned_parameters=lp, all_terms=True)
+        return mol, out[1].sum()
+
+    base = energy(dict(), learned=False)[0].parameters[name].detach().clone()
+    h = 1e-5
+    wgt = torch.ones(1, requires_grad=True)
+    if mode == "leaf":
+        caller = base.clone().requires_grad_(True)
+        lp = {name: caller}
+        fd = None
+    elif mode == "nonleaf":
+        caller = wgt
+        lp = {name: base * wgt}
+    else:
+        caller = wgt
+        lp = lambda species, coordinates: {name: base * wgt}  # noqa: E731
+    try:
+        _, E = energy(lp)
+    except Exception as ex:  # noqa
+        print("replay hand-over %s/%s/%s: raised %s: %s" % (method, name, mode, type(ex).__name__, str(ex)[:110]))
+        return True
+    g = torch.autograd.grad(E, caller, allow_unused=True)[0]
+    if g is None:
+        print("replay hand-over %s/%s/%s: no gradient reaches the caller's tensor" % (method, name, mode))
+        return True
+    if mode == "leaf":
+        e = torch.zeros_like(base)
+        e[1] = h
+        fd = (energy({name: base + e})[1] - energy({name: base - e})[1]).item() / (2 * h)
+        got = g[1].item()
+    else:
+        fd = (energy({name: base * (1 + h)})[1] - energy({name: base * (1 - h)})[1]).item() / (2 * h)
+        got = g.item()
+    print("replay hand-over %s/%s/%s: autograd %.8f vs FD %.8f" % (method, name, mode, got, fd))
+    return abs(got - fd) > 1e-5 * max(1.0, abs(fd))
+
+
+@obligation(PID, "f", title="parameter hand-over: a caller-supplied differentiable tensor (leaf, non-leaf, or returned by a callable of the geometry) is accepted, and the tensor the calculation uses is an identity function of it (unit Jacobian), for every learnable parameter name of MNDO/AM1/PM3, through Molecule.__init__ and Energy._prepare_molecule_inputs")
+def ob_f(ob):
+    import seqm.basics as B
+    from seqm.Molecule import Molecule
+    from seqm.seqm_functions.constants import Constants
+    from .common import quiet
+
+    ob.encodes(B.Energy._prepare_molecule_inputs, B.Pack_Parameters.forward, Molecule.__init__)
+    ob.bound("water, methods AM1/PM3/MNDO, every name in the method's parameter list supplied alone; values symbolic reals; forward-mode dual numbers with one tangent direction per atom; three supply modes (leaf tensor, non-leaf tensor, callable returning a non-leaf tensor) x two entry points")
+    ob.assume("copy.deepcopy on a tensor follows torch.Tensor.__deepcopy__: refuses non-leaf tensors, and the copy of a leaf is a new leaf into which derivatives of the original do not flow (modelled by dropping the tangents); clone() keeps them", "Parser and the parameter tables run concretely")
+    species = torch.tensor([[8, 1, 1]])
+    xyz = torch.tensor([[[0.0, 0.0, 0.0], [0.96, 0.0, 0.0], [-0.24, 0.93, 0.0]]])
+    n = 3
+    methods = ("AM1", "PM3", "MNDO")
+    for method in methods:
+        names = list(B.parameterlist[method])
+        for name in names:
+            for mode in ("leaf", "nonleaf", "callable"):
+                for entry in ("Energy", "Molecule"):
+                    S.reset()
+                    S.ST.dual_n = n
+                    try:
+                        vals = [z3.Real("th_%d" % i) for i in range(n)]
+                        th = SymTensor(np.array([Dual(vals[i], tuple(z3.RealVal(1 if j == i else 0) for j in range(n))) for i in range(n)], dtype=object))
+                        th.requires_grad = True
+                        th.is_leaf_model = mode == "leaf"
+                        lp = (lambda sp_, co_: {name: th}) if mode == "callable" else {name: th}
+                        sp = {"method": method, "scf_eps": 1e-8, "scf_converger": [1], "sp2": [False], "learned": [name]}
+                        err = None
+                        try:
+                            with quiet(), symbolic_factories():
+                                if entry == "Molecule":
+                                    mol = Molecule(Constants(), sp, xyz.clone(), species, learned_parameters=lp)
+                                else:
+                                    sp0 = dict(sp, learned=[])
+                                    mol = Molecule(Constants(), sp0, xyz.clone(), species)
+                                    sp["elements"] = sp0["elements"]
+                                    en = B.Energy(sp)
+                                    en._prepare_molecule_inputs(mol, lp)
+                            used = mol.parameters[name]
+                        except RuntimeError as ex:
+                            if "deepcopy protocol" not in str(ex):
+                                raise HarnessError("unexpected error while packing %s (%s, %s): %s" % (name, mode, entry, ex))
+                            err = str(ex)
+                    finally:
+                        S.ST.dual_n = 0
+                    lab = "f:%s %s %s via %s" % (method, name, mode, entry)
+                    bad = None
+                    if err is not None:
+                        bad = "is refused (%s)" % err[:90]
+                    elif not isinstance(used, SymTensor):
+                        bad = "is replaced by a constant"
+                    else:
+                        cl = []
+                        for i in range(n):
+                            x = used.a.reshape(-1)[i]
+                            xv, xt = (x.v, x.t) if isinstance(x, Dual) else (x, (z3.RealVal(0),) * n)
+                            cl.append(xv == vals[i])
+                            cl.extend(xt[j] == (1 if j == i else 0) for j in range(n))
+                        v, m = smt.prove(z3.And(*cl), [], lab, "lra", 30)
+                        if v == "sat":
+                            bad = "reaches the calculation as a disconnected copy (no derivative flows back to the caller's tensor)"
+                        elif v != "unsat":
+                            ob.inconclusive(lab)
+                            continue
+                    if bad is None:
+                        ob.discharged(lab)
+                        continue
+                    fid = "C07-parameters-deepcopied"
+                    if ob.is_known(fid):
+                        if not ob.known_lines:
+                            ob.known_finding(fid, ob.is_known(fid)["what"])
+                        continue
+                    if replay_param_handover(method, name, mode):
+                        ob.violation("%s: supplied %s parameter %s %s" % (entry, mode, name, bad), {"module": "harness.C07", "func": "replay_param_handover", "args": {"method": method, "name": name, "mode": mode}})
+                        return
+                    raise HarnessError("hand-over counterexample did not reproduce (%s: %s)" % (lab, bad))
+    x = z3.Real("x")
+    expect_refuted(ob, x == x + 1, [], "twin: a dropped tangent (0 instead of 1) is noticed", "lra")
